@@ -57,6 +57,7 @@ pub closed spec fn inv(a: A) -> bool {
     &&& a.counter.len() == 16
     &&& a.members[0] =~= seq![0usize]
     &&& a.members[1] =~= seq![0usize]
+    &&& a.counter[0] == 0 && a.counter[1] == 0        // the reserved slots are never counted
     &&& forall|v: int| 0 <= v < a.tag.len() ==> 0 <= #[trigger] a.tag[v] < 16
     &&& forall|b: int| 2 <= b < 16 ==> #[trigger] group_ok(a, b)
     &&& forall|v: int| 0 <= v < a.tag.len() ==> #[trigger] in_own_group(a, v)
